@@ -21,7 +21,9 @@ role-dependent ones: `value_from_first_person`, `value_nth_person`, `sum(role=â€
   restores (the very object, `clone()`, a reform that changes nothing); whether the same dump is restored
   twice, or the restored simulation is dumped again and that dump restored (`dmp rt2`); foreign entries put
   into the dump between the two calls (`X|`, `XF|`, `XD|`: files, hidden files, sub-directories inside a
-  variable directory, a top-level file, an empty directory named after a variable); `delete_arrays` among
+  variable directory â€” among them a loadable back-up `<period>.copy.npy` of one of the dump's own files, whose name ends
+  with `.npy` without being a period: refused, where a parser cutting at the first dot would take it for that period â€”,
+  a top-level file, an empty directory named after a variable); `delete_arrays` among
   the requests before the dump; the container handed to `set_input` (array of the variable's dtype, wider
   array, Python list, date objects, enum names / indices / EnumArray).
 * The generator runs the scenario on the real engine and writes the *state reached* (entity
@@ -91,7 +93,10 @@ GROUP_REQUESTS = POSITION_REQUESTS + [("calculate", "{k}_c_y", "year"), ("calcul
 #: foreign entries put into a variable directory after the dump (`/` = a sub-directory); OnDiskStorage.restore
 #: skips every name that does not end with `.npy`; `.npy` alone ends with it and is not a period
 IN_VAR_NAMES = ["notes.txt", ".hidden", "README", "2018-01.npy.bak", "2018-01.npy~", "sub/", ".npy.tmp", "x.npyy",
-                "2018-01", "npy", ".npy"]
+                "2018-01", "npy", ".npy", "@copy", "@copy", "2018.01.npy"]
+#: `@copy`: a LOADABLE array under the name `<an existing period file's name>.copy.npy` (somebody's back-up made inside the
+#: dump): the name ends with `.npy` and what precedes that suffix â€” `2018-01.copy` â€” is not a period, so the restore
+#: raises; an implementation that cut the name at its FIRST dot would read the back-up as that period
 #: foreign top-level files: restore_simulation reads every top-level name but __entities__ as a variable
 TOP_NAMES = [".DS_Store", "README.md", "notes"]
 
@@ -288,7 +293,11 @@ def tamper_plan(sc, sim, tbs) -> list:
     plan = []
     for kind, seed, name in sc.get("extra", []):
         if kind == "in-var" and holders:
-            plan.append(("X", holders[seed % len(holders)], name))
+            var = holders[seed % len(holders)]
+            if name == "@copy":
+                known = sorted(str(p) for p in sim.get_holder(var).get_known_periods())
+                name = (known[seed % len(known)] if known else "2018") + ".copy.npy"
+            plan.append(("X", var, name))
         elif kind == "top":
             plan.append(("XF", name))
         elif kind == "dir" and free:
@@ -545,8 +554,12 @@ def _tamper(path, plan):
     for t in plan:
         if t[0] == "X":
             target = os.path.join(path, t[1], t[2].rstrip("/"))
+            source = os.path.join(path, t[1], t[2][:-len(".copy.npy")] + ".npy") if t[2].endswith(".copy.npy") else None
             if t[2].endswith("/"):
                 os.mkdir(target)
+            elif source is not None and os.path.isfile(source):
+                import shutil
+                shutil.copyfile(source, target)
             else:
                 with open(target, "w") as f:
                     f.write("not an array")
